@@ -35,7 +35,9 @@ func taDecode(text []byte) (string, *trackaddict.Session) {
 	go func() {
 		var sess *trackaddict.Session
 		cls, _ := classify(func() error {
-			d, err := trackaddict.NewDecoder(strings.NewReader(string(text)))
+			rd, done := readerFor(text, true)
+			defer done()
+			d, err := trackaddict.NewDecoder(rd)
 			if err != nil {
 				return err
 			}
